@@ -7,49 +7,22 @@ Open Scope Z_scope.
 
 (* ---------- cutting a record ---------- *)
 
-Fixpoint colons (s : str) : nat :=
-  match s with
-  | [] => O
-  | c :: r => if c =? colon then S (colons r) else colons r
-  end.
-
-Lemma split_on_first d s :
-  split_on d s = match split_first d s with
-                 | (a, None) => [a]
-                 | (a, Some r) => a :: split_on d r
-                 end.
+Lemma split_once_first d s :
+  split_first d s = match split_once d s with
+                    | Some (a, b) => (a, Some b)
+                    | None => (s, None)
+                    end.
 Proof.
   induction s as [|c r IH]; [reflexivity|].
-  cbn [split_on split_first]. destruct (c =? d); [reflexivity|].
-  rewrite IH. destruct (split_first d r) as [a [r'|]]; reflexivity.
+  cbn [split_once split_first]. destruct (c =? d); [reflexivity|].
+  rewrite IH. destruct (split_once d r) as [[a b]|]; reflexivity.
 Qed.
 
-Lemma split_first_none s : colons s = O -> split_first colon s = (s, None).
+(* KeyValue::parse cuts a record exactly as the property says: at the first colon *)
+Lemma kv_pieces_record_of s : kv_pieces s = record_of s.
 Proof.
-  induction s as [|c r IH]; [reflexivity|].
-  cbn [colons split_first]. destruct (c =? colon); [discriminate|].
-  intros H. now rewrite (IH H).
-Qed.
-
-Lemma split_first_some s a r :
-  split_first colon s = (a, Some r) -> colons s = S (colons r).
-Proof.
-  revert a. induction s as [|c t IH]; intros a; [discriminate|].
-  cbn [colons split_first]. destruct (c =? colon).
-  - intros H. now inversion H.
-  - destruct (split_first colon t) as [a' b'] eqn:E. intros H. inversion H; subst. now apply (IH a').
-Qed.
-
-(* KeyValue::parse agrees with "first colon" exactly on records with at most
-   one colon *)
-Lemma kv_pieces_record_of s : (colons s <= 1)%nat -> kv_pieces s = record_of s.
-Proof.
-  intros H. unfold kv_pieces, record_of. rewrite split_on_first.
-  destruct (split_first colon s) as [a [r|]] eqn:E.
-  - pose proof (split_first_some _ _ _ E) as Hc.
-    assert (Hr : colons r = O) by lia.
-    rewrite split_on_first, (split_first_none _ Hr). reflexivity.
-  - reflexivity.
+  unfold kv_pieces, record_of. rewrite split_once_first.
+  destruct (split_once colon s) as [[a b]|]; reflexivity.
 Qed.
 
 (* ---------- tables ---------- *)
@@ -178,43 +151,23 @@ Qed.
 
 (* ---------- T11a: the parsers decode per the property's tables ---------- *)
 
-(* the recorded deviation D1: the record has a colon after the first one *)
-Definition extra_colon (s : str) : Prop := (2 <= colons s)%nat.
-
 Lemma spec_kv_split_ext {S} (sp1 sp2 : str -> str * str) (tbl : list (row S)) (strip : bool) st line :
   sp1 (if strip then trim_comment line else line) = sp2 (if strip then trim_comment line else line) ->
   spec_kv sp1 tbl strip st line = spec_kv sp2 tbl strip st line.
 Proof. intros H. unfold spec_kv. now rewrite H. Qed.
 
-Theorem parse_general_spec st line :
-  ~ extra_colon (trim_comment line) -> parse_general st line = spec_general st line.
+Theorem parse_general_spec st line : parse_general st line = spec_general st line.
+Proof. rewrite parse_general_table. apply spec_kv_split_ext. apply kv_pieces_record_of. Qed.
+Theorem parse_editor_spec st line : parse_editor st line = spec_editor st line.
+Proof. rewrite parse_editor_table. apply spec_kv_split_ext. apply kv_pieces_record_of. Qed.
+Theorem parse_metadata_spec st line : parse_metadata st line = spec_metadata st line.
+Proof. rewrite parse_metadata_table. apply spec_kv_split_ext. apply kv_pieces_record_of. Qed.
+Theorem parse_difficulty_spec st line : parse_difficulty st line = spec_difficulty st line.
+Proof. rewrite parse_difficulty_table. apply spec_kv_split_ext. apply kv_pieces_record_of. Qed.
+Theorem parse_colors_spec st line : parse_colors st line = spec_colors st line.
 Proof.
-  intros H. rewrite parse_general_table. apply spec_kv_split_ext.
-  apply kv_pieces_record_of. unfold extra_colon in H. lia.
-Qed.
-Theorem parse_editor_spec st line :
-  ~ extra_colon (trim_comment line) -> parse_editor st line = spec_editor st line.
-Proof.
-  intros H. rewrite parse_editor_table. apply spec_kv_split_ext.
-  apply kv_pieces_record_of. unfold extra_colon in H. lia.
-Qed.
-Theorem parse_metadata_spec st line :
-  ~ extra_colon line -> parse_metadata st line = spec_metadata st line.
-Proof.
-  intros H. rewrite parse_metadata_table. apply spec_kv_split_ext.
-  apply kv_pieces_record_of. unfold extra_colon in H. lia.
-Qed.
-Theorem parse_difficulty_spec st line :
-  ~ extra_colon (trim_comment line) -> parse_difficulty st line = spec_difficulty st line.
-Proof.
-  intros H. rewrite parse_difficulty_table. apply spec_kv_split_ext.
-  apply kv_pieces_record_of. unfold extra_colon in H. lia.
-Qed.
-Theorem parse_colors_spec st line :
-  ~ extra_colon (trim_comment line) -> parse_colors st line = spec_colors st line.
-Proof.
-  intros H. rewrite parse_colors_table. unfold spec_colors, spec_colors_with.
-  rewrite kv_pieces_record_of; [reflexivity|]. unfold extra_colon in H. lia.
+  rewrite parse_colors_table. unfold spec_colors, spec_colors_with.
+  now rewrite kv_pieces_record_of.
 Qed.
 
 (* ---------- T11b: rejected / unknown records leave the state untouched ---------- *)
@@ -284,12 +237,7 @@ Proof. unfold difficulty_line_key, parse_difficulty. destruct (kv_parse _ _) as 
 (* the key of a line is recognised exactly when the trimmed text before the
    first colon is one of the documented names *)
 Lemma kv_pieces_key s : fst (kv_pieces s) = fst (record_of s).
-Proof.
-  unfold kv_pieces, record_of. rewrite split_on_first.
-  destruct (split_first colon s) as [a [r|]]; cbn [map next fst odflt].
-  - destruct (map trim (split_on colon r)); reflexivity.
-  - reflexivity.
-Qed.
+Proof. now rewrite kv_pieces_record_of. Qed.
 
 (* ---------- T11b: the last valid occurrence wins ---------- *)
 
@@ -782,42 +730,16 @@ Proof.
             |cbn [fst]; rewrite Eb; reflexivity]).
 Qed.
 
-(* ---------- the "first colon" clause is false of the code (D1) ---------- *)
+(* ---------- text after a second colon is kept (D1 repaired) ---------- *)
 
-Lemma metadata_first_colon_refuted :
-  exists st line, extra_colon line /\ parse_metadata st line <> spec_metadata st line.
-Proof.
-  exists metadata_default, (lit "Title:Re:Zero"). split; [unfold extra_colon; cbn; lia|].
-  intros H. apply (f_equal (fun r => dump_metadata (fst r))) in H. vm_compute in H. discriminate.
-Qed.
-
-Lemma general_first_colon_refuted :
-  exists st line, extra_colon (trim_comment line) /\ parse_general st line <> spec_general st line.
-Proof.
-  exists general_default, (lit "AudioFilename:a:b.mp3"). split; [unfold extra_colon; vm_compute; lia|].
-  intros H. apply (f_equal (fun r => dump_general (fst r))) in H. vm_compute in H. discriminate.
-Qed.
-
-Lemma difficulty_first_colon_refuted :
-  exists st line, extra_colon (trim_comment line) /\ parse_difficulty st line <> spec_difficulty st line.
-Proof.
-  exists difficulty_default, (lit "CircleSize:4:5"). split; [unfold extra_colon; vm_compute; lia|].
-  intros H. apply (f_equal (fun r => dump_difficulty (fst r))) in H. vm_compute in H. discriminate.
-Qed.
-
-Lemma editor_first_colon_refuted :
-  exists st line, extra_colon (trim_comment line) /\ parse_editor st line <> spec_editor st line.
-Proof.
-  exists editor_default, (lit "GridSize:4:5"). split; [unfold extra_colon; vm_compute; lia|].
-  intros H. apply (f_equal (fun r => dump_editor (fst r))) in H. vm_compute in H. discriminate.
-Qed.
-
-Lemma colors_first_colon_refuted :
-  exists st line, extra_colon (trim_comment line) /\ parse_colors st line <> spec_colors st line.
-Proof.
-  exists colors_default, (lit "Combo1:1,2,3:4"). split; [unfold extra_colon; vm_compute; lia|].
-  intros H. apply (f_equal (fun r => dump_colors (fst r))) in H. vm_compute in H. discriminate.
-Qed.
+Lemma multi_colon_values_kept :
+  dump_metadata (fst (parse_metadata metadata_default (lit "Title:Re:Zero")))
+    = dump_metadata (set_m_title metadata_default (lit "Re:Zero")) /\
+  dump_metadata (fst (parse_metadata metadata_default (lit "Tags:a:b:c")))
+    = dump_metadata (set_m_tags metadata_default (lit "a:b:c")) /\
+  snd (parse_colors colors_default (lit "Combo1:1,2,3:4")) = Rejected /\
+  snd (parse_difficulty difficulty_default (lit "CircleSize:4:5")) = Rejected.
+Proof. vm_compute. repeat split. Qed.
 
 (* D10: a bookmark outside +-(2^31-1) is stored; a padded one is dropped *)
 Lemma bookmarks_limit_refuted :
